@@ -257,6 +257,13 @@ inline std::vector<Vec2> polygon_points(const Elem& e, const Frame& f) {
 static const int spine2[][2] = {{0, 0}, {30, 40}};
 static const int spine3[][2] = {{0, 0}, {40, 0}, {40, 30}};
 
+// spine point i of a path with n points: the 2- and 3-point spines above, or for n >= 1000 a straight zig-zag
+// (4 millis per step in x, alternating 0 / 8 millis in y) long enough to need several XY records (> 8190 points)
+inline Vec2 spine_point(const Frame& f, int n, int i) {
+    if (n >= 1000) return f.pt(4 * i, 8 * (i % 2));
+    const int(*sp)[2] = n == 2 ? spine2 : spine3;
+    return f.pt(sp[i][0], sp[i][1]);
+}
 // ------------------------------------------------------------------ element builders
 template <class Path>
 inline void apply_xf(Path* p, int xf) {
@@ -299,12 +306,11 @@ inline void add_element(Cell* cell, Cell* kid, const Elem& e, const LibSpec& s) 
         case FLEX_SIMPLE:
         case FLEX_OUTLINE: {
             FlexPath* fp = (FlexPath*)allocate_clear(sizeof(FlexPath));
-            const int(*sp)[2] = e.n == 2 ? spine2 : spine3;
             const double tol = 1e-5;
             if (e.kind == FLEX_SIMPLE) {
                 double w1 = f.coord == HALF ? f.len(2) : f.len(8), o1 = e.off ? (f.coord == HALF ? f.len(12) : 0.0103) : 0;  // 10.3 millis: derived centre-line coordinates stay away from half grid steps
                 Tag t1 = tag_of(e);
-                fp->init(f.pt(sp[0][0], sp[0][1]), 1, &w1, &o1, tol, &t1);
+                fp->init(spine_point(f, e.n, 0), 1, &w1, &o1, tol, &t1);
                 fp->simple_path = true;
                 fp->scale_width = e.sw != 0;
                 fp->elements[0].end_type = e.end == 0 ? EndType::Flush : e.end == 1 ? EndType::HalfWidth : e.end == 2 ? EndType::Extended : EndType::Round;
@@ -313,11 +319,11 @@ inline void add_element(Cell* cell, Cell* kid, const Elem& e, const LibSpec& s) 
                 double w[2] = {f.coord == HALF ? f.len(8) : f.len(8), f.coord == HALF ? f.len(4) : f.len(4)};
                 double o[2] = {f.coord == HALF ? -f.len(12) : -f.len(10), f.coord == HALF ? f.len(12) : f.len(10)};
                 Tag t[2] = {tag_of(e), e.tag ? make_tag(32767, 0) : make_tag(2, 1)};
-                fp->init(f.pt(sp[0][0], sp[0][1]), 2, w, o, tol, t);
+                fp->init(spine_point(f, e.n, 0), 2, w, o, tol, t);
                 fp->simple_path = false;
                 fp->scale_width = true;
             }
-            for (int i = 1; i < e.n; i++) fp->segment(f.pt(sp[i][0], sp[i][1]), NULL, NULL, false);
+            for (int i = 1; i < e.n; i++) fp->segment(spine_point(f, e.n, i), NULL, NULL, false);
             apply_xf(fp, e.xf);
             fp->repetition = rep;
             set_props(fp->properties, e.props);
@@ -326,12 +332,11 @@ inline void add_element(Cell* cell, Cell* kid, const Elem& e, const LibSpec& s) 
         case ROBUST_SIMPLE:
         case ROBUST_OUTLINE: {
             RobustPath* rp = (RobustPath*)allocate_clear(sizeof(RobustPath));
-            const int(*sp)[2] = e.n == 2 ? spine2 : spine3;
             const double tol = 1e-5;
             if (e.kind == ROBUST_SIMPLE) {
                 double w1 = f.coord == HALF ? f.len(2) : f.len(8), o1 = e.off ? (f.coord == HALF ? f.len(12) : 0.0103) : 0;  // 10.3 millis: derived centre-line coordinates stay away from half grid steps
                 Tag t1 = tag_of(e);
-                rp->init(f.pt(sp[0][0], sp[0][1]), 1, &w1, &o1, tol, 1000, &t1);
+                rp->init(spine_point(f, e.n, 0), 1, &w1, &o1, tol, 1000, &t1);
                 rp->simple_path = true;
                 rp->scale_width = e.sw != 0;
                 rp->elements[0].end_type = e.end == 0 ? EndType::Flush : e.end == 1 ? EndType::HalfWidth : e.end == 2 ? EndType::Extended : EndType::Round;
@@ -340,11 +345,11 @@ inline void add_element(Cell* cell, Cell* kid, const Elem& e, const LibSpec& s) 
                 double w[2] = {f.len(8), f.len(4)};
                 double o[2] = {f.coord == HALF ? -f.len(12) : -f.len(10), f.coord == HALF ? f.len(12) : f.len(10)};
                 Tag t[2] = {tag_of(e), e.tag ? make_tag(32767, 0) : make_tag(2, 1)};
-                rp->init(f.pt(sp[0][0], sp[0][1]), 2, w, o, tol, 1000, t);
+                rp->init(spine_point(f, e.n, 0), 2, w, o, tol, 1000, t);
                 rp->simple_path = false;
                 rp->scale_width = true;
             }
-            for (int i = 1; i < e.n; i++) rp->segment(f.pt(sp[i][0], sp[i][1]), NULL, NULL, false);
+            for (int i = 1; i < e.n; i++) rp->segment(spine_point(f, e.n, i), NULL, NULL, false);
             apply_xf(rp, e.xf);
             rp->repetition = rep;
             set_props(rp->properties, e.props);
@@ -434,6 +439,11 @@ inline const std::vector<Family>& families() {
         {"flexpath.outline.transformed", FLEX_OUTLINE, {"libcfg", "n", "xf"}, {4, 2, 7}},
         {"robustpath.outline.transformed", ROBUST_OUTLINE, {"libcfg", "n", "xf"}, {4, 2, 7}},
         // boundary values of the GDSII 8-byte real (exact powers of 16) in MAG, ANGLE and UNITS
+        // simple paths whose centre line needs more than one XY record (8190 points per record): flexpaths with
+        // 8191, 8195, 16390 spine points; robustpaths with 2048, 2049, 4098 straight sections (gdstk samples 4 points
+        // per section: 8193, 8197, 16393 centre-line points)
+        {"flexpath.simple.long", FLEX_SIMPLE, {"libcfg03", "nlong"}, {2, 3}},
+        {"robustpath.simple.long", ROBUST_SIMPLE, {"libcfg03", "nlong"}, {2, 3}},
         {"reference.real8", REFERENCE, {"rep2", "refl", "mag7", "rot9"}, {2, 2, 7, 9}},
         {"label.real8", LABEL, {"refl", "mag7", "rot9"}, {2, 7, 9}},
         {"library.real8", POLYGON, {"libcfgx", "coord2", "elemvar"}, {6, 2, 7}},
@@ -475,6 +485,8 @@ inline LibSpec decode(const Family& fam, int64_t idx, bool heavy) {
         else if (d == "rot") e.rot = fam.kind == LABEL ? (x == 2 ? 3 : x) : x;
         else if (d == "anchor") e.anchor = x;
         else if (d == "target") e.target = x;
+        else if (d == "libcfg03") s.libcfg = x ? 3 : 0;
+        else if (d == "nlong") e.n = fam.kind == FLEX_SIMPLE ? (x == 0 ? 8191 : x == 1 ? 8195 : 16390) : (x == 0 ? 2049 : x == 1 ? 2050 : 4099);
         else if (d == "rep2") e.rep = x;  // none, rectangular 2x3
         else if (d == "mag7") e.mag = x;
         else if (d == "rot9") e.rot = x;
